@@ -340,7 +340,9 @@ type pipeline struct {
 }
 
 // what a rule may demand of a request besides its path: nothing, https, plain http, one host
-var routeGuards = []string{"", "    scheme: https\n", "    scheme: http\n", "    hosts:\n      - type: exact\n        value: svc.local\n"}
+var routeGuards = []string{"", "    scheme: https\n", "    scheme: http\n", "    hosts:\n      - type: exact\n        value: svc.local\n",
+	// a glob: '*' stands for one label of the host name, not for several
+	"    hosts:\n      - type: glob\n        value: \"*.local\"\n"}
 
 func (p pipeline) yaml(id, path string, proxy bool) string { return p.yamlGuarded(id, path, proxy, 0) }
 
@@ -1082,7 +1084,7 @@ func pipeSim(r *simcore.Run) {
 	if entry == "proxy" {
 		target = w.proxy
 	}
-	guard := []int{0, 0, 0, 1, 2, 3}[s.Draw(6, "route-guard")]
+	guard := []int{0, 0, 0, 1, 2, 3, 4}[s.Draw(7, "route-guard")]
 	ruleSet := "version: \"1alpha4\"\nname: sim\nrules:\n" + p.yamlGuarded("r1", "/svc/:id", entry == "proxy", guard)
 	rs, err := world.ParseRuleSet("sim", ruleSet)
 	if err != nil {
@@ -1148,7 +1150,7 @@ func pipeSim(r *simcore.Run) {
 		// the rule may be restricted to a scheme or a host; most requests satisfy it, some arrive the other way
 		https, otherHost := guard == 1, false
 		if guard != 0 && s.Draw(3, "request-misses-the-guard") == 2 {
-			https, otherHost = guard == 2, guard == 3
+			https, otherHost = guard == 2, guard >= 3
 		} else if guard == 0 {
 			https = s.Draw(4, "https") == 3
 		}
@@ -1189,7 +1191,7 @@ func pipeSim(r *simcore.Run) {
 		// a check request without scheme does not satisfy a rule which demands one
 		noScheme := entry == "envoy" && (guard == 1 || guard == 2) && s.Draw(4, "envoy-without-scheme") == 3
 		w.envoyNoScheme = noScheme
-		w.reqHTTPS, w.reqHost = https, map[bool]string{true: "other.local"}[otherHost]
+		w.reqHTTPS, w.reqHost = https, map[bool]string{true: map[bool]string{false: "other.local", true: "deep.svc.local"}[guard == 4]}[otherHost]
 		ans, panicked := w.send(entry, path, c.headers())
 		w.reqHTTPS, w.reqHost, w.reqChunked, w.envoyNoScheme = false, "", false, false
 		w.reqMethod, w.reqBody, w.envoyBodyAsString, w.envoyRawHeaders = "", nil, false, false
@@ -1215,7 +1217,7 @@ func pipeSim(r *simcore.Run) {
 			r.FailProp("C01", "panic-escaped-entry-point", entry, "a panic escaped the %s entry point: %v", entry, panicked)
 			break
 		}
-		guardMet := guard == 0 || (guard == 1 && https && !noScheme) || (guard == 2 && !https && !noScheme) || (guard == 3 && !otherHost)
+		guardMet := guard == 0 || (guard == 1 && https && !noScheme) || (guard == 2 && !https && !noScheme) || (guard >= 3 && !otherHost)
 		matched := strings.HasPrefix(path, "/svc/1") && guardMet
 		if !guardMet {
 			r.Count("requests-missing-the-scheme-or-host-of-the-rule", 1)
